@@ -17,7 +17,7 @@ def main(argv):
 
     prop = load_prop(sc["property"])
     try:
-        bootstrap.reset_process_state()
+        bootstrap.reset_process_state(sc)
         sim = prop.execute(sc)
     except Exception as e:
         print(f"HARNESS-ERROR {type(e).__name__}: {e}")
